@@ -25,6 +25,22 @@ CLAIMED = {
                             "are covered by the oracle only."),
         technique="Lean 4 proof (list induction, omega) over hand model + differential correspondence with the real methods",
         design="5/C05"),
+    "C06": dict(
+        text=("Lean theorems about an abstract core (per-assembly states + gap; an assembly step reads its own state and the "
+              "gap and writes only its own state): frame property, commutation of steps of different assemblies, "
+              "independence of the plane from the order / interleaving of the assignment list (any permutation), and - with "
+              "an inert gap - equality of an assembly's state in the core with its stand-alone run after any number of "
+              "planes, whatever other assemblies are present; a shared mutable cell read before it is rewritten provably "
+              "breaks this (counter-example).  PARTIAL: the hypothesis is a fact about the Python object graph and is "
+              "established by observation: alias analysis of every mutable object reachable from each assembly of real "
+              "reactors plus write detection over two planes, and bitwise metamorphic runs (alone vs in company vs permuted "
+              "order, temperature-dependent coolant, unrodded regions, pin models)."),
+        note=COMMON_NOTE + ("hand abstract model; Python aliasing, object identity and rebinding during the sweep are "
+                            "observed, not modelled (named runtime behaviour the model cannot exhibit); scratch "
+                            "conductivity objects of a shared pin model are whitelisted as update-before-use and their "
+                            "harmlessness is confirmed by comparing pin temperatures."),
+        technique="Lean 4 proof (frame/commutation/permutation) over abstract model + alias analysis and metamorphic oracle on real reactors",
+        design="5/C06"),
     "C07": dict(
         text=("Lean theorem (any field, any tables, any weights): a local explicit cell update - exchange with the listed "
               "neighbours weighted by the two cell types, a donor (swirl) term, a typed source term - commutes with every "
